@@ -722,6 +722,9 @@ class Sx:
     def __abs__(self):
         return sabs(self)
 
+    def item(self):
+        return self
+
     def __bool__(self):
         return bool(self != 0)
 
